@@ -23,6 +23,7 @@ type thread struct {
 }
 
 type timer struct {
+	born     int64    // virtual time of creation (virtual-clock mode)
 	ch       *channel // fires by sending a value / closing
 	fn       func()   // or a callback
 	dur      int64
@@ -46,6 +47,46 @@ type scheduler struct {
 	timersNondet bool
 	deterministic bool
 	atomicSwitch  bool // sync/atomic operations are scheduling points (verifrt.AtomicSwitch)
+	vclockOn      bool  // virtual-clock mode (verifrt.AdvanceTime): timers fire in order of their due time
+	now           int64 // virtual time, nanoseconds
+}
+
+func (s *scheduler) addTimer(t *timer) {
+	t.born = s.now
+	s.timers = append(s.timers, t)
+}
+
+// due: the virtual time at which t fires next (virtual-clock mode).
+func (t *timer) due() int64 {
+	if t.periodic {
+		return t.born + int64(t.fires+1)*t.dur
+	}
+	return t.born + t.dur
+}
+
+// nextDue returns the pending timer with the earliest due time (ties: the one
+// armed first), or nil.
+func (s *scheduler) nextDue() *timer {
+	var best *timer
+	for _, t := range s.timers {
+		if t.stopped || (!t.periodic && t.fires > 0) {
+			continue
+		}
+		if best == nil || t.due() < best.due() || (t.due() == best.due() && t.seq < best.seq) {
+			best = t
+		}
+	}
+	return best
+}
+
+func (s *scheduler) fire(t *timer) {
+	t.fires++
+	P.tracef("timer %d fires (dur %d, t=%d)", t.seq, t.dur, s.now)
+	if t.fn != nil {
+		t.fn()
+	} else if t.ch != nil {
+		chTrySend(t.ch, int64(0))
+	}
 }
 
 var S *scheduler
@@ -137,6 +178,18 @@ func (s *scheduler) pickNext() *thread {
 // fireTimer fires the pending timer with the earliest deadline (ties: the one
 // armed first). Returns false if there is none.
 func (s *scheduler) fireTimer() bool {
+	if s.vclockOn {
+		// everything is blocked: time jumps to the next timer
+		t := s.nextDue()
+		if t == nil {
+			return false
+		}
+		if d := t.due(); d > s.now {
+			s.now = d
+		}
+		s.fire(t)
+		return true
+	}
 	var cand []*timer
 	for _, t := range s.timers {
 		if !t.stopped && (t.fires == 0 || (t.periodic && t.fires < s.tickLimit)) {
